@@ -1017,6 +1017,7 @@ pub struct Stats {
     pub probes: BTreeMap<String, u64>,
     pub tuples: Vec<u64>,
     pub io_calls: u64,
+    pub base_identity: u64,
 }
 
 pub fn mode_name(m: &Mode) -> String {
@@ -1032,6 +1033,7 @@ pub fn run_one(root_seed: u64, i: u64, max_plans: usize, st: &mut Stats) -> Opti
     let base = run_world(&w.world, &[]);
     st.spawns += 1;
     st.io_calls += base.log.len() as u64;
+    st.base_identity = crate::rng::fnv1a64(&base.identity());
     bump(&mut st.probes, &format!("mode:{}", mode_name(&w.mode)));
     if let Expect::Fail(_, why) = &w.expect {
         bump(&mut st.probes, &format!("mismatch:{why}"));
